@@ -546,6 +546,8 @@ impl OutstationSession {
                         Ok(NextIdleAction::SleepUntilEvent)
                     }
                     Some(UnsolicitedResult::Timeout) | Some(UnsolicitedResult::ReturnToIdle) => {
+                        // the series ended without a confirm: nothing it carried may be released
+                        database.reset();
                         let retry_at = self.new_unsolicited_retry_deadline();
                         self.state.unsolicited = UnsolicitedState::Ready(Some(retry_at));
                         Ok(NextIdleAction::SleepUnit(retry_at))
